@@ -2,8 +2,25 @@ package main
 
 // C13: GoLite targets (docs/GOLITE_NOTES.md).
 func init() {
+	const ts = ".../verifier/truststore"
 	Register("C13", []Target{
 		{Pkg: ".../internal/file", Func: "IsValidFileName"},
 		{Pkg: ".../internal/file", Func: "TrimFileExtension"},
+		// certificates are values of a dependency (crypto/x509): opaque, seen through views
+		{Pkg: "crypto/x509", Type: "Certificate", Opaque: true, Views: map[string]string{
+			"IsCA":               "bool",
+			"SignatureAlgorithm": "Z",
+			"RawTBSCertificate":  "list Z",
+			"Signature":          "list Z",
+			"RawSubject":         "list Z",
+			"RawIssuer":          "list Z",
+		}},
+		{Pkg: "crypto/x509", Func: "(*Certificate).CheckSignature", Oracle: true},
+		{Pkg: "crypto/x509", Func: "(*Certificate).CheckSignatureFrom", Oracle: true},
+		{Pkg: "bytes", Func: "Equal", Oracle: true},
+		{Pkg: ".../internal/slices", Func: "Contains"},
+		{Pkg: ts, Func: "isValidStoreType"},
+		{Pkg: ts, Func: "ValidateCertificates"},
+		{Pkg: ts, Func: "isRootCACertificate"},
 	})
 }
